@@ -541,6 +541,21 @@ func (e *Env) sel(n *ESel) Val {
 						}
 					}
 				}
+				// promoted through an embedded pointer to a struct
+				if ept, ok := f.Type().Underlying().(*types.Pointer); ok {
+					if est, ok := ept.Elem().Underlying().(*types.Struct); ok {
+						for j := 0; j < est.NumFields(); j++ {
+							if est.Field(j).Name() == n.Name {
+								fam, sort, ft := g.fieldFam(p.Elem(), i)
+								inner := Val{T: fmt.Sprintf("(select %s %s)", g.heapGet(e.state(), fam, sort), xv.T), S: "Int", GT: ft}
+								fam2, sort2, ft2 := g.fieldFam(ept.Elem(), j)
+								r := Val{T: fmt.Sprintf("(select %s %s)", g.heapGet(e.state(), fam2, sort2), inner.T), S: g.sortOf(ft2), GT: ft2}
+								e.heapTypeFact(r)
+								return r
+							}
+						}
+					}
+				}
 			}
 		}
 		e.fail("no field %s in %s", n.Name, p.Elem())
